@@ -36,6 +36,10 @@ CORPUS = [
     "L:f:X0,S,X1;Z;J;F;C;L:f:S,N;C;L:f:X1;L:f:N;J",
     "L:b:S,S;L:b:S;L:f:S;Z;J;K:1;K:2;E;J;F:2;C;F:3;C;J",
     "F;B;F:7;B:7;L:b:S;F:7;B:7;B:1;F;C",
+    # sparse job ids: the lower-numbered job is gone and reaped, then the higher-numbered one is stopped / resumed
+    "L:b:S;L:b:S;K:1;E;F:2;Z;J;B:2;J;F:2;C;J",
+    "L:b:X0;L:b:S,S;E;E;F:2;Z;J;F:2;C",
+    "L:b:S;L:b:S;L:b:S;K:1;K:2;E;J;F:3;Z;J;B:3;J;K:3;E;J",
 ]
 
 NOTES = []
